@@ -161,7 +161,9 @@ class Variable(FortranObj):
         # TODO: if local keywords are set they should take precedence over link_obj
         # Alternatively, I could do a dictionary merge with local variables
         # having precedence by default and use a flag to override?
-        if self.link_obj is not None:
+        # The linked object can be a scope (e.g. the parent-type component of an
+        # ASSOCIATE selector), which carries no keyword information
+        if (self.link_obj is not None) and hasattr(self.link_obj, "keyword_info"):
             return get_keywords(self.link_obj.keywords, self.link_obj.keyword_info)
         return get_keywords(self.keywords, self.keyword_info)
 
